@@ -70,7 +70,7 @@ def run(ctx):
     ctx.require_events('Fitter.__init__:post', 'Fitter.fit:post', 'grid_checked')
     ctx.require_regimes('step:written-as-integer', 'range:exact-multiple-of-step', 'limit_penalised', 'unit:flux-not-mJy', 'apertures:per-band-tables', 'n=1', 'n=2', 'n>2', 'beyond_table', 'av_clipped', 'av_interior', 'best_first', 'best_mid',
                         'best_last', 'style:v1', 'style:v2name', 'style:v2wav', 'memmap_on', 'memmap_off', 'unit:pc', 'unit:cm', 'angle:arcmin', 'angle:deg',
-                        'aperture:exactly-smallest-at-dmin', 'grid:over-a-million-cells')
+                        'aperture:exactly-smallest-at-dmin', 'grid:over-a-million-cells', 'range:ends-differ-by-less-than-1e-5')
     n_pkg = 14 if ctx.quick else 160
     n_rng = 3
     n_src = 12 if ctx.quick else 25
@@ -158,6 +158,10 @@ def run(ctx):
             if big:
                 dmin = float(gen.loguniform(rng, 0.05, 1.0))
                 dmax, kind = dmin * 10 ** 3.0, 'wide'
+            if ir == 1 and ip % 3 == 1 and not big:
+                # a very narrow range whose ends still differ (by 1e-8 .. 1e-5 relative): non-degenerate, so both ends are trial distances
+                dmax, kind = dmin * (1.0 + 10.0 ** float(rng.uniform(-8, -5))), 'hair'
+                ctx.regime('range:ends-differ-by-less-than-1e-5')
             if exact:
                 ctx.regime('range:exact-multiple-of-step')
             # apertures: theta such that theta*dmin_pc sits inside the table, some pushing beyond a_max at dmax
